@@ -10,6 +10,11 @@ CHECKS = {
    note="Trusted: the explicit reference DDL renderer and the table of intended affinities (integer types -> INTEGER; float/double/decimal/money -> REAL; char/string/text/date-time/json/uuid/enum -> TEXT; binary/blob -> BLOB; boolean -> NUMERIC or INTEGER). Declarations whose REFERENCE the engine rejects (contradictory specifications, AUTOINCREMENT on a non-INTEGER key) are out of domain and counted.",
    technique=TECH+"exhaustive enumeration of declarations and of statement sequences, oracle = differential catalogue comparison on two real SQLite engines",
    ref="3.13"),
+ "C14": dict(
+   text="Every enumerated schema declaration is rendered by the real MySQL and PostgreSQL backends and parsed by that dialect's reference DDL parser (written from the manuals' statement synopses on top of the reference lexer and expression parser); the parse must succeed and return exactly the declared elements, in order, with a type name the dialect defines and lengths / precision / unsigned-ness / array dimensions preserved. Spaces, x {MySQL, PostgreSQL}: (1) 51 ColumnType/parameter combinations x every permutation of every subset of size <= 3 (quick) / 4 (thorough) of 11 column specifications, through CREATE TABLE and through ALTER TABLE ADD COLUMN; (2) 3847 tables: all subsets of {TEMPORARY, IF NOT EXISTS, table primary key (unnamed / named composite), unique, plain and FULLTEXT inline index, foreign key (9 action pairs), table check, table comment} plus all subsets of ENGINE / COLLATE / CHARACTER SET; (3) ALTER TABLE option sequences up to length 2 (quick) / 3 (thorough) over ADD COLUMN [IF NOT EXISTS], RENAME / DROP COLUMN, ADD / DROP FOREIGN KEY and MODIFY COLUMN with and without a type and every permutation of <= 2 specifications; (4) CREATE INDEX (all 128 flag subsets, partial, schema-qualified, full-text), DROP INDEX, CREATE FOREIGN KEY with all 36 action pairs, DROP FOREIGN KEY, RENAME / DROP (all flag subsets) / TRUNCATE TABLE, and PostgreSQL CREATE / DROP / ALTER TYPE and CREATE / DROP EXTENSION with all flag subsets.",
+   note="Trusted: the reference DDL grammar (no MySQL / PostgreSQL engine is available offline) and the per-dialect table of accepted type names. Combinations the backend documents as unsupported (PostgreSQL auto_increment on non-integer types, MySQL interval / array / network types, PostgreSQL year, MySQL-only table options on PostgreSQL, contradictory specifications) are out of domain and counted.",
+   technique=TECH+"exhaustive enumeration of schema declarations and ALTER option sequences, oracle = reference DDL parser per dialect compared with the declaration",
+   ref="3.14"),
  "C15": dict(
    text="(a) BFS over builder-call histories of the real SelectStatement (QModel menu + named WINDOW, window-name items, TABLESAMPLE, index hints, DISTINCT ON, empty condition groups; every field of the struct is reachable) to depth 3 (quick) / 4 (thorough); in EVERY reached state: take() (result == and Debug-equal to the statement before, identical rendering on 3 backends, builder left == SelectStatement::new()), clone independence under every enabled op, and clear_selects / from_clear / reset_limit / reset_offset / clear_order_by each compared with the statement rebuilt from scratch from the history without that clause's calls. (b) clear_order_by on UPDATE / DELETE / WindowStatement over all subsets of their builder calls. (c) take() and Clone of TableCreate / Alter / Drop / Rename / Truncate, IndexCreate, ForeignKeyCreate, TableForeignKey, TableIndex, ColumnDef, WindowStatement (and Clone of InsertStatement) over ALL subsets of 1..14 builder calls each.",
    note="Trusted: `rebuilt from scratch` uses the same real builder calls (differential: state reached from the initial state vs state reached from elsewhere). Argument values are fixed per op; NaN values are not used.",
